@@ -565,6 +565,15 @@ class Interp:
                 e = e.func
             if isinstance(e, ast.Name):
                 name = e.id
+                # `err = ValueError("..."); ...; raise err`: a local bound (once, in this function) to a constructed exception
+                if not isinstance(s.exc, ast.Call) and self.frames:
+                    fn_ = self.frames[-1].fn
+                    from .astutil import single_assignments
+                    src_ = single_assignments(fn_.node).get(e.id) if fn_ is not None else None
+                    if isinstance(src_, ast.Call) and isinstance(src_.func, (ast.Name, ast.Attribute)):
+                        cn_ = src_.func.id if isinstance(src_.func, ast.Name) else src_.func.attr
+                        if cn_.endswith(("Error", "Exception", "Warning")):
+                            name = cn_
             elif isinstance(e, ast.Attribute):
                 name = e.attr
         self.emit(st, "raise", s, exc=name)
